@@ -22,7 +22,11 @@ func c02Enumerate(tier string, emit func(*eng.Case)) {
 		maxE = 3
 	}
 	for _, url := range []string{"", "http://example.com/a/b/story.html"} {
-		ora.EnumDocs(starts, alpha, maxE, func(d *ora.DocModel, edits int) {
+		e := maxE
+		if tier == "thorough" && url != "" {
+			e = maxE - 1 // the third edit only without page URL (the URL changes link resolution, not selection)
+		}
+		ora.EnumDocs(starts, alpha, e, func(d *ora.DocModel, edits int) {
 			own(caseFromModel("doc", d, atoms, url))
 		})
 		// S3 (first extraction pass suffices): single edits, and pairs in thorough
@@ -83,7 +87,7 @@ func init() {
 	eng.Register(&eng.Prop{
 		ID:        "C02",
 		DesignRef: "§5 C02",
-		Rule: "docspace BFS: skeletons S1 (article), S2 (article between link-cluster chrome) with <= 2 (quick) / <= 3 (thorough) insertions of one of 34 block atoms (figures whose caption ends in a hidden element or a style element, a caption-less figure ending in a script, including bare text next to tables, tables with hidden/comment-only cells, a table inside a list item, a sidebar-classed link cluster) at every child position of body and of the article container, plus S3 (>= 520-word article) with one edit fewer; with and without page URL; " +
+		Rule: "docspace BFS: skeletons S1 (article), S2 (article between link-cluster chrome) with <= 2 (quick) / <= 3 (thorough) insertions of one of 34 block atoms (figures whose caption ends in a hidden element or a style element, a caption-less figure ending in a script, including bare text next to tables, tables with hidden/comment-only cells, a table inside a list item, a sidebar-classed link cluster) at every child position of body and of the article container, plus S3 (>= 520-word article) with one edit fewer; with and without page URL (thorough: the third insertion only without page URL); " +
 			"every word is a unique token." + crossRule + " (there, only words that occur once in the visible source are judged). Oracle: words of Text and of the visible text of result.Node are a duplicate-free subsequence of the visible source words. Non-trivial = >= 20 words kept and >= 1 visible source word dropped.",
 		Enumerate: c02Enumerate,
 		Check:     c02Check,
